@@ -200,7 +200,12 @@ impl Query {
             out.push_str("some ");
         }
         // a query must start with a key, a variable or `this`
-        let lead_this = !matches!(self.parts.first(), Some(Part::Var(_)) | Some(Part::This) | Some(Part::Key(_)));
+        // (a quoted key in first position cannot be followed by further parts either)
+        let lead_this = match self.parts.first() {
+            Some(Part::Var(_)) | Some(Part::This) => false,
+            Some(Part::Key(k)) => !(is_ident(k) || (k.starts_with('%') && is_ident(&k[1..]))) && self.parts.len() > 1,
+            _ => true,
+        };
         if lead_this {
             out.push_str("this");
         }
@@ -840,7 +845,9 @@ impl<'a> Gen<'a> {
                     // variables are most useful when they point at containers
                     let parts = self.parts_from_path(root, &p, 1, vars);
                     let exact = parts.iter().zip(p.iter()).all(|(pt, sg)| matches!((pt, sg), (Part::Key(a), Seg::Key(b)) if a == b));
-                    out.push(Let { name: name.clone(), val: Arg::Query(Query { some: false, parts }) });
+                    // `let v = some <query>` keeps only the entries that resolve
+                    let some = self.r.chance(1, 4);
+                    out.push(Let { name: name.clone(), val: Arg::Query(Query { some, parts }) });
                     vars.push(VarInfo { name, origin: if exact { Some(p) } else { None }, kind: "query", uses: 0 });
                 }
             } else {
@@ -1017,7 +1024,14 @@ pub fn gen_prog(r: &mut Rng, root: &J, o: &GenOpts) -> Prog {
         } else {
             vec![]
         };
-        let body = g.gen_body(root, o.max_depth, &vars, true, true, o.max_lines);
+        let mut body = g.gen_body(root, o.max_depth, &vars, true, true, o.max_lines);
+        // two long lists in the document: compare them element-wise (query == query)
+        if matches!(doc::at(root, &[Seg::Key("long_a".into())]), Some(J::List(_))) && g.r.chance(1, 2) {
+            let (l, rr) = if g.r.chance(1, 2) { ("long_a", "long_b") } else { ("long_b", "long_a") };
+            let c = Cmp { not: false, q: Query { some: g.r.chance(1, 4), parts: vec![Part::Key(l.into()), Part::AllIdx] }, op: *g.r.pick(&[Op::Eq, Op::Eq, Op::In]), opnot: g.r.chance(1, 4), rhs: Some(Rhs::Query(Query { some: false, parts: vec![Part::Key(rr.into()), Part::AllIdx] })), msg: None };
+            let at = g.r.usize(body.lines.len() + 1);
+            body.lines.insert(at, Line { alts: vec![Clause::Cmp(c)] });
+        }
         rules.push(Rule { name: names[i].clone(), when, body });
     }
     let mut default_lines = Vec::new();
